@@ -66,9 +66,19 @@ def run(ctx):
     entry = P.fns.get(clos[0]) if clos else None
     if entry is None:
         raise AnchorMissing("worker entry closure")
+    def captured(clo):
+        """the values a closure term captures; a captured value of a small local struct (`WorkerContext { cfg, socket, queue }`) stands for its fields"""
+        out = []
+        for x in clo[2]:
+            x0 = values.strip_payload(x)
+            if isinstance(x0, tuple) and len(x0) >= 3 and x0[0] == "agg" and isinstance(x0[1], str) and x0[1].rsplit("::", 1)[0] in P.adts and x0[1].startswith("roughenough_server::"):
+                out.extend(x0[2])
+            else:
+                out.append(x)
+        return out
     # the socket captured is this iteration's bind result
     cterm = wev.call_args(sb)[1]
-    okcap = cterm[0] == "closure" and any(values.strip_payload(x) == wev.call_term(binds[0]) for x in cterm[2]) if binds else False
+    okcap = cterm[0] == "closure" and any(values.strip_payload(x) == wev.call_term(binds[0]) for x in captured(cterm)) if binds else False
     ctx.check("socket-provisioning", "closure-captures-this-iterations-socket", okcap, "the worker closure captures the socket bound in the same iteration",
               "the worker closure captures %s" % fmt(cterm), wf.loc(sb))
 
@@ -102,7 +112,7 @@ def run(ctx):
                 nm = callee_name(t2["fn"].get("path", ""))
                 a2 = fev.call_args(sb2)
                 if nm in ("spawn", "spawn_unchecked", "spawn_scoped") and "thread" in t2["fn"].get("path", ""):
-                    if any(x[0] == "closure" and any(values.strip_payload(u) == ct for u in x[2]) for x in a2 if isinstance(x, tuple) and x):
+                    if any(x[0] == "closure" and any(values.strip_payload(u) == ct for u in captured(x)) for x in a2 if isinstance(x, tuple) and x):
                         handed = True
                 elif nm == "drop" and a2 and values.strip_payload(a2[0]) == ct and all(f.dominates(sb2, s3) or not f.reaches(sb2, s3) for s3, _t in spawns):
                     handed = True
@@ -134,7 +144,15 @@ def run(ctx):
               "a mutex is locked in %s" % sorted(set(lockers) - allowed))
 
     # ------------------------------------------------------------------ (3) shared-state inventory
-    caps = sorted(u["place"]["ty"] for u in entry.upvars)
+    caps = []
+    for u in entry.upvars:
+        ty = u["place"]["ty"]
+        a_ = P.adts.get(ty)
+        if a_ is not None and ty.startswith("roughenough_server::") and len(a_.get("variants", [])) == 1:
+            caps.extend(f_["ty"] for f_ in a_["variants"][0]["fields"])      # a private struct bundling the worker's arguments: its fields are what is captured
+        else:
+            caps.append(ty)
+    caps = sorted(caps)
     def kind(ty):
         if ty.startswith("alloc::sync::Arc<std::sync::") and "Mutex<" in ty and "ServerConfig" in ty:
             return "config"
